@@ -208,14 +208,30 @@ class MetricTranslator:
     # -- translation --------------------------------------------------------------------
     def translate(self, fname: str, ops: Ops, depth: int = 0, args=None) -> Translated:
         """args: the (kind, expr) values of the parameters; None = the registry call f(x, y)."""
-        if fname not in self.mi.functions:
+        foreign = None
+        if isinstance(fname, FunctionInfo):
+            # a helper in another module of the package (`import opfython.math.kernels as k` ... `k.root(v)`)
+            fi = fname
+            fname = fi.name
+            foreign = self.repo.module(fi.module)
+        elif fname not in self.mi.functions:
             raise AnalysisError(f"metric function {fname} not found in distance.py")
-        fi = self.mi.functions[fname]
+        else:
+            fi = self.mi.functions[fname]
+        if foreign is not None and foreign is not self.mi:
+            home, self.mi = self.mi, foreign
+            try:
+                return self.translate(fi if fi.name not in foreign.functions else fi.name, ops, depth, args)
+            finally:
+                self.mi = home
         params = fi.params
         env: Dict[str, Tuple[str, object]] = {}
         a = fi.node.args
         for p, d in zip(reversed(a.args), reversed(a.defaults)):
-            env[p.arg] = ("scalar", self._const(d))
+            if isinstance(d, ast.Constant) and isinstance(d.value, bool):
+                env[p.arg] = ("bool", sp.true if d.value else sp.false)  # a flag with a default
+            else:
+                env[p.arg] = ("scalar", self._const(d))
         if args is None:
             if len(params) < 2:
                 raise AnalysisError(f"{fname}: expected (x, y) parameters")
@@ -228,6 +244,11 @@ class MetricTranslator:
                 raise AnalysisError(f"{fname}: a shifted (decorated) metric is called from inside another metric")
             for p, v in zip(params, args):
                 env[p] = v
+            for kname, v in (getattr(self, "_pending_kwargs", None) or {}).items():
+                if kname not in params:
+                    raise AnalysisError(f"{fname}: unknown keyword argument {kname}")
+                env[kname] = v
+            self._pending_kwargs = None
         missing = [p for p in params if p not in env]
         if missing:
             raise AnalysisError(f"{fname}: parameters {missing} are not bound")
@@ -238,6 +259,19 @@ class MetricTranslator:
         t = Translated(fname, ret[1], obl, self.decorated(fi), self.is_njit(fi), fi)
         t.kind = ret[0]
         return t
+
+    def _helper_of(self, f: str):
+        """The library function a call `f(...)` / `alias.f(...)` inside a metric names: one of the current module, or of
+        another module of the package imported under `alias`."""
+        if f in self.mi.functions:
+            return f
+        if "." in f:
+            alias, _, name = f.rpartition(".")
+            target = (getattr(self.mi, "imports", None) or {}).get(alias)
+            if target and target.startswith("opfython") and target in self.repo.modules \
+                    and name in self.repo.modules[target].functions and target != "opfython.utils.constants":
+                return self.repo.modules[target].functions[name]
+        return None
 
     def _const(self, node):
         if isinstance(node, ast.Constant) and isinstance(node.value, (int, float)):
@@ -283,6 +317,13 @@ class MetricTranslator:
                 kc, cond = self._expr(s.test, env, ops, obl, fi, depth)
                 if kc != "bool":
                     raise AnalysisError(f"{fi.name}:{s.lineno}: guard clause on a non-scalar condition")
+                if cond == sp.true:   # a flag fixed by the caller: only this arm exists
+                    return self._expr(s.body[0].value, env, ops, obl, fi, depth)
+                if cond == sp.false:
+                    if s.orelse:
+                        return self._block(list(s.orelse), dict(env), ops, obl, fi, depth)
+                    i += 1
+                    continue
                 n0 = len(obl)
                 ka, a = self._expr(s.body[0].value, env, ops, obl, fi, depth)
                 for ob in obl[n0:]:
@@ -562,6 +603,15 @@ class MetricTranslator:
         if isinstance(node, ast.Call):
             f = unparse(node.func)
             args = [self._expr(a, env, ops, obl, fi, depth) for a in node.args]
+            helper = self._helper_of(f)
+            if node.keywords and helper is not None and all(k.arg for k in node.keywords):
+                kw = {k.arg: self._expr(k.value, env, ops, obl, fi, depth) for k in node.keywords}
+                if depth > 4:
+                    raise AnalysisError(f"{fi.name}: metric call chain too deep")
+                self._pending_kwargs = kw
+                inner = self.translate(helper, ops, depth + 1, args=args)
+                obl.extend(inner.obligations)
+                return (inner.kind, inner.expr)
             if node.keywords:
                 raise AnalysisError(f"{fi.name}: keyword arguments in {f}(...) outside the whitelist")
             if f in OVERFLOWING:
@@ -627,10 +677,11 @@ class MetricTranslator:
                 kind = "vec" if "vec" in (args[0][0], args[1][0]) else "scalar"
                 fn = sp.Min if f in ("np.minimum", "min") else sp.Max
                 return (kind, fn(args[0][1], args[1][1]))
-            if f in self.mi.functions:
+            if helper is not None:
                 if depth > 4:
                     raise AnalysisError(f"{fi.name}: metric call chain too deep")
-                inner = self.translate(f, ops, depth + 1, args=args)
+                self._pending_kwargs = None
+                inner = self.translate(helper, ops, depth + 1, args=args)
                 obl.extend(inner.obligations)
                 return (inner.kind, inner.expr)
             raise AnalysisError(f"{fi.name}:{line}: call {f}(...) outside the metric whitelist")
